@@ -496,7 +496,31 @@ void exec_conc(const Plan &p, RunOut *out) {
         if (parse_sstables(db_sstables(C.db), &files)) { KeyCmp kc; check_level_structure(dir, files, kc, "after a concurrent history"); count("structure_checks"); }
       }
       // close while background work may be scheduled or mid-way (callers have returned)
+      // C03: the directory as a process kill would leave it right now, and the cleanly closed one, must both
+      // reopen to exactly the final state the callers observed
+      bool persist = !failed() && !finals.empty() && (p.seed % 3 == 0);
+      if (persist) { sim::NoPreempt np; simfs::copy_tree(dir, "/sim/dbk"); }
       ldb_close(C.db); C.db = nullptr;
+      if (persist) {
+        sim::drain();
+        const char *dirs[2] = {dir.c_str(), "/sim/dbk"};
+        for (int d = 0; d < 2 && !failed(); d++) {
+          sim::budget_reset();
+          ldb_t *db2 = nullptr;
+          int orc = ldb_open(dirs[d], &opt.o, &db2);
+          if (orc != LDB_OK) { violation("C05", "reopen_failed", "reopen of %s after a concurrent history failed: %s", d ? "the kill image" : "the closed database", rcname(orc)); break; }
+          for (auto &h : finals) {
+            string v; int grc = db_get(db2, h.key, &v, nullptr, 1, 1);
+            bool found = grc == LDB_OK;
+            if ((grc != LDB_OK && grc != LDB_NOTFOUND) || found != h.found || (found && v != h.val))
+              violation("C03", "lost_after_history", "%s: get(%s) after reopen = %s %s, callers last saw %s %s", d ? "kill image" : "closed database",
+                        printable(h.key).c_str(), rcname(grc), printable(v).c_str(), h.found ? "value" : "NOTFOUND", printable(h.val).c_str());
+          }
+          count("reopen_after_history_checks");
+          ldb_close(db2);
+          sim::drain();
+        }
+      }
       size_t nops = 0; for (auto &h : C.hist) nops += h.size();
       count("history_ops", nops);
       out->nontrivial = out->probes.count("overlapping_operations") && sw1 - sw0 >= 2;
